@@ -13,7 +13,7 @@ EVIDENCE = {
                   "numpy.lib.scimath.sqrt (principal complex square root as constrained pair)"],
     "bounds": "2-D: symmetric 3x3 matrix and line with free real entries (so secant, tangent, missing-in-real-points, through the origin are all inside the query); "
               "duals of every quadric class with concrete parameters; 3-D sphere x line through two free points",
-    "outside": "completeness of the 3-D intersection, quadric collections (thorough), rounding",
+    "outside": "completeness of the 3-D intersection, quadric collections (positionwise agreement is C04), rounding",
     "assumptions": ["ProjectiveTensor.__eq__/is_multiple: lemma proved in C20", "np.linalg.inv exact (stub)", "np.linalg.qr contract stub in the 3-D projection"],
 }
 
